@@ -3,10 +3,16 @@ package main
 import (
 	"fmt"
 	"go/types"
+	"os"
+	"os/exec"
+	"path/filepath"
+	"sort"
 	"strings"
+	"sync"
 
 	"verif/harness/internal/report"
 	"verif/harness/internal/scen"
+	"verif/harness/internal/tool"
 )
 
 // C01 — every successfully generated file is valid Go that compiles in its package.
@@ -110,9 +116,24 @@ func init() {
 			"(F4 deviation-bounded in quick); oracle: exit 0 => output parses, is gofmt-clean and type-checks with zero errors in the ordinary build of its package; " +
 			"non-trivial = accepted cell whose function body contains at least one assignment")
 		var sampled int
+		// thorough: the real tool chain is the second judge (DESIGN §2.4): accepted cells of the intricate families
+		// stay on disk and are compiled with `go build` at the end; a disagreement with the in-process go/types
+		// verdict in either direction is reported
+		secondJudge := th || os.Getenv("VERIF_SECOND_JUDGE") != ""
+		var sjMu sync.Mutex
+		typesVerdict := map[string]bool{} // cell id -> in-process verdict "compiles"
+		if secondJudge {
+			e.WS.Keep = true
+		}
 		e.Explore(cells, func(o *scen.Outcome, t *report.Tally) []report.Finding {
 			t.AddEvaluations(1)
 			a := e.Analyze(o)
+			keep := false
+			defer func() {
+				if secondJudge && !keep {
+					_ = os.RemoveAll(o.Dir)
+				}
+			}()
 			extra := ""
 			switch o.Cell.Meta.(type) {
 			case f1Meta:
@@ -122,6 +143,14 @@ func init() {
 				extra = fmt.Sprintf("imp=%s|use=%d", f6Imports[fm.Imp].id, fm.Use)
 			}
 			fs := e.judgeCompile(o, a, extra, t)
+			if secondJudge && o.Res.Exit == 0 && o.OutExists && o.Cell.Family != "F1-type-matrix" && o.Cell.Family != "F5-hooks" && o.Cell.Family != "F2-signatures" {
+				if _, isLit := o.Cell.Meta.(f4Meta); !(isLit && o.Cell.Meta.(f4Meta).Kind == "literal") {
+					keep = true
+					sjMu.Lock()
+					typesVerdict[o.Cell.ID] = len(a.compileErrors()) == 0
+					sjMu.Unlock()
+				}
+			}
 			if o.Res.Exit == 0 && sampled < 4 && len(fs) == 0 && strings.Contains(o.Out, " = ") {
 				sampled++
 				t.Sample(map[string]any{"cell": o.Cell.ID, "setup": o.Cell.Files["setup.go"], "output_tail": tail(o.Out, 400)})
@@ -129,7 +158,64 @@ func init() {
 			return fs
 		})
 		e.Rep.Bound("families", fmt.Sprintf("%d cells", len(cells)))
+		if secondJudge {
+			e.secondJudge(typesVerdict)
+		}
 	})
+}
+
+// secondJudge compiles the kept cells with the real go tool and compares with the in-process verdicts.
+func (e *Env) secondJudge(typesVerdict map[string]bool) {
+	var ids []string
+	for id := range typesVerdict {
+		ids = append(ids, id)
+	}
+	sort.Strings(ids)
+	failed := map[string]string{}
+	var mu sync.Mutex
+	const chunk = 400
+	nChunks := (len(ids) + chunk - 1) / chunk
+	tool.Parallel(nChunks, max(1, e.Workers/4), func(ci int) {
+		lo, hi := ci*chunk, min(len(ids), (ci+1)*chunk)
+		args := []string{"build", "-o", os.DevNull}
+		for _, id := range ids[lo:hi] {
+			args = append(args, "./c/"+id)
+		}
+		cmd := exec.Command("go", args...)
+		cmd.Dir = e.WS.Root
+		cmd.Env = append(e.Runner.BaseEnv(), "GOFLAGS=")
+		out, _ := cmd.CombinedOutput()
+		mu.Lock()
+		for _, ln := range strings.Split(string(out), "\n") {
+			// c/<id>/setup.gen.go:12:3: message   |   # example.com/m/c/<id>
+			if strings.HasPrefix(ln, "c/") {
+				rest := ln[2:]
+				if i := strings.IndexByte(rest, '/'); i > 0 {
+					if _, seen := failed[rest[:i]]; !seen {
+						failed[rest[:i]] = ln
+					}
+				}
+			}
+		}
+		mu.Unlock()
+	})
+	disagree := 0
+	for _, id := range ids {
+		_, goFails := failed[id]
+		if typesVerdict[id] == !goFails {
+			continue
+		}
+		disagree++
+		what := "go build accepts a package that the in-process go/types judge rejects"
+		if goFails {
+			what = "go build rejects a package that the in-process go/types judge accepts: " + failed[id]
+		}
+		e.Rep.Report(report.Finding{Key: "C01|second-judge-disagrees", CellID: id, What: what})
+	}
+	e.Rep.Set("second_judge", map[string]any{"tool": "go build (real tool chain) over the kept cells", "packages_compiled": len(ids), "rejected_by_go_build": len(failed), "disagreements_with_go_types": disagree})
+	for _, id := range ids {
+		_ = os.RemoveAll(filepath.Join(e.WS.Root, "c", id))
+	}
 }
 
 func tail(s string, n int) string {
